@@ -1183,19 +1183,21 @@ func (tr *FnTrans) exit() {
 	// function under contract changes ghost state itself)
 	for _, gs := range tr.fc.GhostSets {
 		var name string
-		var idx Expr
-		switch x := gs.Target.(type) {
-		case *EIdent:
-			name = x.Name
-		case *EIndex:
-			id, ok := x.X.(*EIdent)
-			if !ok {
-				panic(vcErrorf("ghostset: unsupported target"))
+		var idxs []Expr
+		tgt := gs.Target
+		for {
+			if ix, ok := tgt.(*EIndex); ok {
+				idxs = append([]Expr{ix.I}, idxs...)
+				tgt = ix.X
+				continue
 			}
-			name, idx = id.Name, x.I
-		default:
+			break
+		}
+		id, ok := tgt.(*EIdent)
+		if !ok || len(idxs) > 2 {
 			panic(vcErrorf("ghostset: unsupported target"))
 		}
+		name = id.Name
 		g, ok := tr.w.ghosts[name]
 		if !ok {
 			panic(vcErrorf("ghostset: %s is not a ghost variable", name))
@@ -1205,8 +1207,12 @@ func (tr *FnTrans) exit() {
 		v := ec.eval(gs.E)
 		cur := vc.hget(fin, comp)
 		nv := v.T
-		if idx != nil {
-			nv = sSto(cur, ec.eval(idx).T, v.T)
+		switch len(idxs) {
+		case 1:
+			nv = sSto(cur, ec.eval(idxs[0]).T, v.T)
+		case 2:
+			i0, i1 := ec.eval(idxs[0]).T, ec.eval(idxs[1]).T
+			nv = sSto(cur, i0, sSto(sSel(cur, i0), i1, v.T))
 		}
 		n := vc.fresh(comp+"@g", vc.compSort[comp])
 		vc.fact(sEq(n, nv), "")
@@ -1382,6 +1388,11 @@ func (tr *FnTrans) modTargets(ec *evalCtx, e Expr) []modTarget {
 				}})
 			}
 			return ts
+		}
+		if x.Fn == "anymap" && len(x.Args) == 1 { // anymap(map[K]V): every map of that type
+			mt := ec.resolveType(strings.ReplaceAll(exprString(x.Args[0]), " ", ""))
+			mh, mv, ml, _ := vc.mapComps(mt)
+			return []modTarget{{comp: mh}, {comp: mv}, {comp: ml}}
 		}
 		if x.Fn == "elemsof" && len(x.Args) == 1 { // elemsof(T): the elements of every []T
 			return []modTarget{{comp: vc.elemComp(ec.resolveType(strings.ReplaceAll(exprString(x.Args[0]), " ", "")))}}
